@@ -4,17 +4,17 @@
 def register(prop, J):
     prop("C20",
          rule="cleaning cases: real directory trees over {generated file, manifest, user .go file, other file, empty dir, nested dir} "
-              "x target given as absolute path / relative path / '.'; non-trivial = the tree holds at least one generator-owned file "
+              "x target given as absolute path / relative path / '.' (and './' as a report-only class); non-trivial = the tree holds at least one generator-owned file "
               "and at least one foreign regular file (cleaning has to discriminate), or the target does not exist; distinct by "
               "(target mode, canonical tree). regeneration cases: real GenerateCode runs (fresh process each) into a directory "
               "pre-populated with user files, a hand-written custom typeref implementation and stale generated files; distinct by "
               "initial population",
          jobs=[
-             J("clean-v2", "v2", "cleanprops", "^TestC20(Regress|Enum|Missing|Clean)$", checks=(6000, 400000), shards=(16, 16), timeout=(300, 1200)),
-             J("regen-v2", "v2", "cleanprops", "^TestC20Regen$", checks=(160, 4800), shards=(8, 16), timeout=(300, 1200)),
-             J("clean-v1", "v1", "cleanprops", "^TestC20(Regress|Enum|Missing|Clean)$", checks=(4000, 200000), shards=(8, 16), timeout=(300, 1200),
+             J("clean-v2", "v2", "cleanprops", "^TestC20(Regress|Enum|Missing|Clean)$", checks=(6000, 250000), shards=(16, 16), timeout=(300, 1200)),
+             J("regen-v2", "v2", "cleanprops", "^TestC20Regen$", checks=(160, 3200), shards=(8, 16), timeout=(300, 1200)),
+             J("clean-v1", "v1", "cleanprops", "^TestC20(Regress|Enum|Missing|Clean)$", checks=(4000, 120000), shards=(8, 16), timeout=(300, 1200),
                env={"VERIF_C20_QUICK_SPACE": "small"}),
-             J("regen-v1", "v1", "cleanprops", "^TestC20Regen$", checks=(80, 2400), shards=(8, 16), timeout=(300, 1200)),
+             J("regen-v1", "v1", "cleanprops", "^TestC20Regen$", checks=(80, 1600), shards=(8, 16), timeout=(300, 1200)),
          ],
          exhaustive=False,
          level_text="generated-input search on real scratch directories against a set model written from the property text: every tree "
@@ -38,6 +38,8 @@ def register(prop, J):
                       "not asserted (labels preexisting_empty_dir, g4_unasserted_file_free_dir_below); only G1-G3 apply there",
                       "directories carrying a generator-owned name (x.gr.go/, a manifest-named directory) are outside the alphabet: "
                       "generated in class unspecified_dir_with_owned_name, asserting only no panic and no foreign file lost",
+                      "the current directory spelled './' (mode=dotslash) is a report-only class: file and directory guarantees are asserted, an error "
+                      "return is only labelled (reportonly_dotslash_clean_returned_error) and noted",
                       "file contents and permission bits are compared; timestamps are not",
                       "the generator entry point GenerateCode is called through reflection in a re-executed test binary (one fresh process per "
                       "generation because utils.TypeRegistry is a process global)"])
